@@ -1,6 +1,7 @@
 use crate::engine::Run;
 
 pub mod c01;
+pub mod c02;
 pub mod c03;
 pub mod c04;
 pub mod c05;
@@ -17,6 +18,7 @@ pub mod linerules;
 
 pub const TABLE: &[(&str, fn(&mut Run))] = &[
     ("C01", c01::run),
+    ("C02", c02::run),
     ("C03", c03::run),
     ("C04", c04::run),
     ("C05", c05::run),
